@@ -1046,8 +1046,10 @@ impl Coll for Customs {
     /// (name, payload, is a RawCustomSection)
     type Val = (String, Vec<u8>, bool);
     fn new() -> Self {
+        let mut cfg = ModuleConfig::new();
+        cfg.generate_dwarf(true);
         Customs {
-            m: Module::default(),
+            m: Module::with_config(cfg),
             ids: vec![],
             typed: vec![],
         }
@@ -1059,6 +1061,7 @@ impl Coll for Customs {
             ("a".into(), vec![3], true),
             ("a".into(), vec![9], false),
             ("b".into(), vec![8], false),
+            (".debug_verif".into(), vec![7], true),
         ]
     }
     fn add(&mut self, v: &Self::Val) -> Result<usize, ()> {
@@ -1110,6 +1113,10 @@ impl Coll for Customs {
         if let Some(s) = self.m.customs.get_typed_mut::<RawCustomSection>() {
             s.data = s.data.clone();
         }
+        // emitting the module in the middle of a history consumes nothing:
+        // every id keeps resolving afterwards (DWARF generation is on and one
+        // pooled section is named like a DWARF section)
+        let _ = quiet(|| self.m.emit_wasm());
         match self.typed[id] {
             TypedId::Raw(t) => {
                 if let Some(s) = self.m.customs.get_mut(t) {
@@ -1359,8 +1366,8 @@ fn run(ctx: &Ctx) {
             "customs" => {
                 // a non-raw section sharing a raw section's name
                 alphabet.push(Op::Add(3));
+                alphabet.push(Op::Add(5));
                 alphabet.push(Op::Remove(0));
-                alphabet.push(Op::Remove(1));
                 alphabet.push(Op::Remove(3));
                 alphabet.push(Op::Touch(0));
                 len -= 1;
